@@ -16,10 +16,12 @@ def _T():
     return sort_of(TXT)
 
 
+TXT = Abs("Txt")
 # text values: encode/decode are total conversions (listed assumption: text decoded from the file or generated as code is encodable)
 DEFAULT_POLICIES["attrs"].update({
     "Txt.encode": lambda I, a, k, n: Opaque("bytes"),
     "Txt.strip": lambda I, a, k, n: Opaque("str"),
+    "Txt.rstrip": lambda I, a, k, n: SV(z3.Function("rstrip_txt", sort_of(TXT), sort_of(TXT))(a[0].t), TXT),
     "Txt.splitlines": lambda I, a, k, n: Opaque("lines"),
 })
 
@@ -410,7 +412,7 @@ contract(
     ghost={"vars": {"emitted": "=None", "n_emitted": "=0", "emitted_code": "=None", "padded_arg": "=None"}},
     ensures={
         # C03: a Replace touches exactly the text of its own node
-        "replaces-exactly-its-own-node [C03,C10,C11]": "n_emitted == 1 and emitted == text_positions(self.node) and padded_arg == False",
+        "replaces-exactly-its-own-node [C03,C10,C11,C12,C02,C01]": "n_emitted == 1 and emitted == text_positions(self.node) and padded_arg == False",
         "writes-its-own-code [C03,C01]": "emitted_code == self.new_code",
     },
     frame=[],
